@@ -245,7 +245,8 @@ func (w *world) mineMid(how string) {
 		for target <= n {
 			target <<= 1
 		}
-		for i := 0; i < 400 && w.hn.CM.TipState().Elements.NumLeaves <= target; i++ {
+		// the pool rebases a set over at most 144 blocks: stay well below
+		for i := 0; i < 100 && w.hn.CM.TipState().Elements.NumLeaves <= target; i++ {
 			must(w.hn.Mine(types.VoidAddress, 1))
 		}
 	}
